@@ -126,6 +126,12 @@ func GenNet(rng *rand.Rand, family string, idx int) *Net {
 			n.InitialCoinbase = types.Siacoins(uint32(40 + rng.IntN(30)))
 			n.MinimumCoinbase = types.Siacoins(uint32(5 + rng.IntN(30)))
 		}
+	case "legacywin":
+		// v2 from the start with a long legacy (pre ephemeral-output fix) window
+		h := make([]uint64, 11)
+		h[7], h[8], h[9], h[10] = 1, uint64(60+rng.IntN(40)), uint64(2+rng.IntN(10)), uint64(120+rng.IntN(40))
+		setHeights(n, h)
+		n.MaturityDelay = delays[rng.IntN(len(delays))]
 	case "testnet":
 		// the literal parameters of the repository's own tests, with the v2
 		// window pulled into reach
